@@ -169,7 +169,7 @@ fn cmd_check(id: &str, tier: &str) {
             out.faulted_runs,
             out.distinct.len(),
             out.stats.steps,
-            out.violating.len(),
+            out.violating_runs,
             secs
         );
         scen_summ.push(json!({"scenario": sc.name, "runs": out.runs, "fault_free_runs": out.fault_free_runs, "faulted_runs": out.faulted_runs, "distinct_abstract_traces": out.distinct.len(), "steps": out.stats.steps, "wall_s": secs, "combined_trace_hash": format!("{:016x}", out.combined_trace)}));
@@ -334,17 +334,19 @@ fn cmd_check(id: &str, tier: &str) {
     println!("evidence written: {}/{id}.json ", evidence_dir());
     println!(" runs={total_runs} distinct_nontrivial={distinct} wall={wall:.1}s");
 
-    if !harness_errors.is_empty() {
-        for e in harness_errors.iter().take(10) {
-            eprintln!("HARNESS ERROR: {e}");
-        }
-        exit(2);
+    for e in harness_errors.iter().take(10) {
+        eprintln!("HARNESS ERROR: {e}");
     }
+    // a property violation takes precedence: e.g. an ephemeral drawn from outside the resolver's
+    // random source is both a C06 violation and a source of run-to-run nondeterminism
     if !viol_lines.is_empty() {
         for l in &viol_lines {
             println!("{l}");
         }
         exit(1);
+    }
+    if !harness_errors.is_empty() {
+        exit(2);
     }
     println!("OK property={id} held on everything explored");
 }
